@@ -37,6 +37,8 @@ pub struct FaultCounts {
     pub debug_session: u64,
     #[serde(default)]
     pub heap_layout: u64,
+    #[serde(default)]
+    pub clock: u64,
 }
 
 impl FaultCounts {
@@ -52,6 +54,7 @@ impl FaultCounts {
         self.env_change += o.env_change;
         self.debug_session += o.debug_session;
         self.heap_layout += o.heap_layout;
+        self.clock += o.clock;
     }
     pub fn any(&self) -> bool {
         self.hash_reseed
@@ -182,6 +185,9 @@ fn plan_faults(plan: &Plan, out: &Outcome, refs: &mut RefTable) -> (FaultCounts,
     }
     if plan.heap_perturb > 0 {
         f.heap_layout += 1;
+    }
+    if plan.clock_step_ns > 0 && out.clock_reads > 0 {
+        f.clock += 1;
     }
     let base_nonref = plan.hash_base != 0;
     let all = plan
